@@ -876,7 +876,7 @@ def make_ragged(ip, data, shape, enc, lineno):
     if isinstance(shape, (SArr, list, SymList)):
         lens = as_arr(ip, shape)
         fl = shape.at if isinstance(shape, SymList) else lens.snapshot()      # stable identity: contracts can name the same prefix sums
-        C = M.exclusive_prefix(fl, lens.length)
+        C = M.exclusive_prefix(fl, lens.length, lens)
         c.check("%s:ragged.size@L%s" % (c.fname, lineno), C(I(lens.length)) == I(data.length), "safety", lineno,
                 "row lengths sum to the data size")
         return SRaggedObj(fd, lens.length, lambda i: C(I(i)), fl, enc, data.length, contiguous=True, C=C)
